@@ -3,14 +3,17 @@
 //
 //	cd /verif/harness && GOFLAGS=-mod=mod GOPROXY=off GOWORK=off go test -tags verif -count=1 -v ./c07taint/
 //
-// Each test asserts what the property asks for.  TestSingleEntityFetchIsTainted is a regression (repaired in loader.go,
-// commit 00d2cc7: passes); the other two FAIL on the current tree (open findings).
+// Each test asserts what the property asks for.  TestSingleEntityFetchIsTainted (00d2cc7) and
+// TestMalformedErrorEntryDoesNotAbortTheResponse (9b487a9) are regressions of repaired findings: they pass.
+// TestTaintedObjectIsDroppedFromIndependentFetches reproduces the OPEN finding taint-filters-independent-fetches: it FAILS on
+// the current tree and is skipped unless C07_OPEN_FINDINGS=1.
 package c07taint
 
 import (
 	"bytes"
 	"context"
 	"net/http"
+	"os"
 	"strings"
 	"sync"
 	"testing"
@@ -147,6 +150,9 @@ func TestSingleEntityFetchIsTainted(t *testing.T) {
 // key=taint-filters-independent-fetches: a tainted object is left out of EVERY later fetch, whether or not that fetch
 // depends on the failed field: reviews (no @requires, depends on the root fetch only) runs after profile and loses User 2.
 func TestTaintedObjectIsDroppedFromIndependentFetches(t *testing.T) {
+	if os.Getenv("C07_OPEN_FINDINGS") == "" {
+		t.Skip("open finding key=taint-filters-independent-fetches (KNOWN_FINDINGS.txt); set C07_OPEN_FINDINGS=1 to reproduce")
+	}
 	accounts := &subgraph{respond: func(string) string {
 		return `{"data":{"accounts":[{"__typename":"User","id":"1"},{"__typename":"User","id":"2"}]}}`
 	}}
@@ -180,9 +186,9 @@ func TestTaintedObjectIsDroppedFromIndependentFetches(t *testing.T) {
 	}
 }
 
-// not a taint matter, seen on the way: an `errors` entry whose `path` is not an array makes encoding/json fail in
-// appendSubgraphError and the whole resolve returns an error (no response), with or without the option.
-func TestMalformedErrorEntryAbortsTheResponse(t *testing.T) {
+// undecodable-subgraph-error-aborts-response (repaired, 9b487a9): an `errors` entry whose `path` is not an array made
+// encoding/json fail in appendSubgraphError and the whole resolve returned an error (no response), with or without the option.
+func TestMalformedErrorEntryDoesNotAbortTheResponse(t *testing.T) {
 	accounts := &subgraph{respond: func(string) string {
 		return `{"data":{"accounts":[{"__typename":"User","id":"1"}]}}`
 	}}
@@ -196,6 +202,9 @@ func TestMalformedErrorEntryAbortsTheResponse(t *testing.T) {
 		Data: &resolve.Object{Fields: []*resolve.Field{{Name: []byte("accounts"), Value: &resolve.Array{Path: []string{"accounts"}, Item: userNode()}}}},
 	})
 	if err != nil {
-		t.Errorf("one subgraph's malformed errors entry fails the whole request: %v (written: %q)", err, out)
+		t.Fatalf("one subgraph's malformed errors entry fails the whole request: %v (written: %q)", err, out)
+	}
+	if !strings.Contains(out, `"data":{"accounts":[{"id":"1"}]}`) || !strings.Contains(out, "Failed to fetch from Subgraph 'profile'") {
+		t.Errorf("expected the data and the wrapped subgraph error, got %s", out)
 	}
 }
